@@ -90,9 +90,28 @@ TWINS = [
 ]
 
 
-def code_objects(tier, rng=None, limit=None, max_code=None):
+def boundary_sources():
+    """functions whose forward jump lands around the one-byte operand boundary (256), with bodies the 3.7-3.9 peephole pass
+    shortens AFTER the jump widths were chosen (a, b = b, a becomes ROT_TWO and a NOP is squeezed out; `not` tests are
+    inverted; jumps to jumps are threaded): compiled code is then not at the least fixed point of the jump widths, so an
+    EXTENDED_ARG prefix can be kept alive by nothing but its own width"""
+    for n_swaps in (1, 2, 3):
+        for n_padding in range(52, 70):
+            body = "".join("        a, b = b, a\n" for _ in range(n_swaps)) + "".join("        x%d = a\n" % (i % 5) for i in range(n_padding))
+            yield ("def f(a, b, c):\n    if c:\n" + body + "    return a\n")
+    for n_padding in range(58, 68):
+        body = "".join("        x%d = a\n" % (i % 5) for i in range(n_padding))
+        yield ("def f(a, b, c):\n    while not c:\n        if not a:\n            a, b = b, a\n" + body.replace("        ", "            ") + "    return a\n")
+
+
+def code_objects(tier, rng=None, limit=None, max_code=None, huge=False):
     """yields (origin, code) for every code object (nested included)"""
     seen = 0
+    for i, src in enumerate(boundary_sources()):
+        c = compile(src, "<boundary%d>" % i, "exec")
+        for k in walk(c):
+            if k.co_name != "<module>":
+                yield ("boundary%d" % i, k)
     for i, (a, b, fa, fb) in enumerate(TWINS):
         for tag, src, fn in (("a", a, fa), ("b", b, fb)):
             c = compile(src, fn, "exec")
@@ -107,6 +126,13 @@ def code_objects(tier, rng=None, limit=None, max_code=None):
             continue
         for k in walk(c):
             yield ("inline%d" % i, k)
+    if huge and tier != "quick" and not max_code:
+        # operands of 0x10000 and more (two EXTENDED_ARG prefixes): a module with more than 65536 names
+        try:
+            c = compile("".join("v%d = %d\n" % (i, i % 7) for i in range(65600)), "<huge-names>", "exec")
+            yield ("huge-names", c)
+        except (MemoryError, RecursionError, OverflowError):
+            pass
     for path in source_files(tier, rng, limit):
         c = compile_file(path)
         if c is None:
